@@ -1171,6 +1171,49 @@ def check_long_batch(case):
     return out
 
 
+def check_dense(case):
+    """Every possible edge of a graph whose order is a power of two or next
+    to one (4, 8, 15, 16, 17, 32): all pairs inserted in a scrambled order,
+    then every other one removed (simple graphs), full view oracle.  Whatever
+    the object uses as key of an edge must keep all n^2 pairs apart."""
+    from cnfgen.graphs import Graph, DirectedGraph, BipartiteGraph
+    kind, n = case['kind'], case['n']
+    if kind == 'simple':
+        G = Graph(_fresh(n))
+        pairs = [(u, v) for u in range(1, n + 1) for v in range(u + 1, n + 1)]
+    elif kind == 'directed':
+        G = DirectedGraph(_fresh(n))
+        pairs = [(u, v) for u in range(1, n + 1) for v in range(1, n + 1)]
+    else:
+        G = BipartiteGraph(_fresh(n), _fresh(n + 1))
+        pairs = [(u, v) for u in range(1, n + 1) for v in range(1, n + 2)]
+    order = sorted(pairs, key=lambda e: ((e[0] * 7 + e[1] * 13) % 11, -e[1], e[0]))
+    V = Views(CLSNAME[kind], prefix='dense:')
+    E = set()
+    for (u, v) in order:
+        got = _call(G.add_edge, _fresh(u), _fresh(v))
+        if got[0] == 'exc':
+            V.bad('add_edge', 'legal:refused', 'add_edge(%d,%d) raised %s' % (u, v, got[1]))
+            break
+        E.add((u, v))
+        if _call(G.number_of_edges) != ('ok', len(E)):
+            V.bad('number_of_edges', 'mismatch', 'after inserting %d distinct pairs (the last one (%d,%d)) the '
+                  'graph counts %r edges' % (len(E), u, v, _call(G.number_of_edges)))
+            break
+    if not V.problems and kind == 'simple':
+        for (u, v) in order[::2]:
+            if _call(G.remove_edge, v, u)[0] != 'exc':
+                E.discard((u, v))
+    if not V.problems:
+        if kind == 'simple':
+            check_simple(G, n, E, V, roundtrip=False)
+        elif kind == 'directed':
+            check_directed(G, n, E, V, roundtrip=False)
+        else:
+            check_bipartite(G, (n, n + 1), E, V, kind, roundtrip=False)
+    return [{'key': k, 'what': w[:400], 'case': dict(case)} for (k, w) in V.problems[:4]], len(order)
+
+
 def check_overlapping_walks(case):
     """Two walks over ONE object returned by edges() that overlap in time
     (nested loops, zip(E, E), an abandoned walk followed by a full one): each
@@ -1485,6 +1528,13 @@ def run_extra(args, R):
         R.extend(vs)
         return
     if args['what'] == 'batch':
+        for n_ in (4, 8, 15, 16, 17, 32):
+            case = {'part': 'dense', 'kind': args['kind'], 'n': n_}
+            vs, nops = check_dense(case)
+            R.extend(vs)
+            R.stats['executions'] += nops
+            R.stats['transitions'] += nops
+            R.case(sample=case, nontrivial=True)
         for form in ('list', 'generator'):
             case = {'part': 'batch', 'kind': args['kind'], 'form': form}
             R.extend(check_long_batch(case))
@@ -1629,6 +1679,8 @@ def replay(case):
         return check_from_networkx(case)
     if case.get('part') == 'batch':
         return check_long_batch(case)
+    if case.get('part') == 'dense':
+        return check_dense(case)[0]
     if case.get('part') == 'walks':
         return check_overlapping_walks(case)
     if case.get('part') == 'held':
